@@ -1,0 +1,32 @@
+//go:build verif
+
+package template
+
+// Contracts for govc (contract-based deductive verification). Comment-only file.
+
+// ---- C20: the data handed to templates and webhooks. Deductively: it is built from the exposable form of exactly the
+// batch handed in, with one entry per alert in order; the group labels are copied over; the intersection that yields
+// the common labels/annotations starts from the first alert's own sets, looks at every further alert, and may stop
+// early only when *both* sets have run empty. (That the intersection itself is computed right is covered by the
+// bounded stand-in: the full functional proof over its nested map loops did not discharge within the budgets.)
+//@ func (*Template).Data
+//@   props C20
+//@   nosafe
+//@   requires t != nil
+//@   assumes forall i int :: 0 <= i && i < len(alerts) ==> alerts[i] != nil
+//@   at call dynamic:global:Alerts assert [the-exposable-form-of-the-whole-batch] arg0 == alerts
+//@   after call dynamic:global:Alerts assume len(res0) == len(alerts) && (forall i int :: 0 <= i && i < len(res0) ==> res0[i] != nil)
+//@   ensures [one-entry-per-alert] result != nil && fresh(result) && len(result.Alerts) == len(alerts)
+//@   ensures [the-reason-and-receiver-given] result.NotificationReason == notificationReason
+//@   loop 1 invariant rangeindex < len(typedAlerts) && fresh(data) && (data.Alerts == nil || fresh(data.Alerts)) && len(data.Alerts) == rangeindex + 1 && len(typedAlerts) == len(alerts) && data.NotificationReason == notificationReason
+//@   loop 2 invariant rangeindex1 + 1 < len(typedAlerts) && fresh(data) && (data.Alerts == nil || fresh(data.Alerts)) && len(data.Alerts) == rangeindex1 + 1 && len(typedAlerts) == len(alerts) && data.NotificationReason == notificationReason
+//@   loop 3 invariant rangeindex1 + 1 < len(typedAlerts) && fresh(data) && (data.Alerts == nil || fresh(data.Alerts)) && len(data.Alerts) == rangeindex1 + 1 && len(typedAlerts) == len(alerts) && data.NotificationReason == notificationReason
+//@   loop 4 invariant fresh(data) && len(data.Alerts) == len(alerts) && data.NotificationReason == notificationReason && fresh(data.GroupLabels) && (forall k model.LabelName :: (k in visited) ==> (k in data.GroupLabels) && data.GroupLabels[k] == groupLabels[k])
+//@   loop 5 invariant fresh(data) && len(data.Alerts) == len(alerts) && data.NotificationReason == notificationReason
+//@   loop 6 invariant fresh(data) && len(data.Alerts) == len(alerts) && data.NotificationReason == notificationReason && rangeindex + 1 < len(alerts)
+//@   loop 6 earlyexit len(commonLabels) == 0 && len(commonAnnotations) == 0
+//@   loop 7 invariant fresh(data) && len(data.Alerts) == len(alerts) && data.NotificationReason == notificationReason && rangeindex6 + 2 < len(alerts)
+//@   loop 8 invariant fresh(data) && len(data.Alerts) == len(alerts) && data.NotificationReason == notificationReason && rangeindex6 + 2 < len(alerts)
+//@   loop 9 invariant fresh(data) && len(data.Alerts) == len(alerts) && data.NotificationReason == notificationReason
+//@   loop 10 invariant fresh(data) && len(data.Alerts) == len(alerts) && data.NotificationReason == notificationReason
+//@   noeffect dynamic:global:Alerts Alerts).Status Alert).Status Fingerprint).String URL).String regexp.QuoteMeta
